@@ -168,6 +168,23 @@ def m_hasattr(I_, args, kws, st, ctx, k, node):
     k(s, r)
 
 
+def m_dir(I_, args, kws, st, ctx, k, node):
+  """dir(obj) for an instance on the symbolic heap: the names of its class (and bases) plus its instance attributes,
+  sorted - what object.__dir__ yields for a plain instance"""
+  obj = args[0]
+  if isinstance(obj, Ref) and st.obj(obj).kind == "obj":
+    o = st.obj(obj)
+    from .interp import _ABSENT as _abs
+    names = set(dir(o.cls))
+    for nm, v in o.data.items():
+      if isinstance(nm, str) and v is not _abs:
+        names.add(nm)
+    return k(st, st.alloc("list", list, sorted(names)))
+  if fully_concrete(obj):
+    return k(st, st.alloc("list", list, dir(obj)))
+  raise Unsupported("dir() of %r" % (obj,))
+
+
 def m_getattr(I_, args, kws, st, ctx, k, node):
   obj, name = args[0], args[1]
   if not isinstance(name, str):
@@ -979,6 +996,7 @@ _TABLE = {
 }
 import math as _math
 _TABLE[_math.modf] = m_modf
+_TABLE[dir] = m_dir
 _UNION_AWARE.update([builtins.isinstance, builtins.len, builtins.type, builtins.bool, builtins.hasattr,
                      builtins.getattr, builtins.setattr, builtins.callable, builtins.int, builtins.str,
                      builtins.bytes, builtins.hash, builtins.id, builtins.repr])
